@@ -4,7 +4,7 @@ import pk, src
 from common import jhash, first_diff
 from pkgrun import *
 
-PROF = profile(no_textbox_in_link=True, p_table=0.3, p_span=0.3, p_vmerge=0.3, p_rpr=0.6, p_style=0.4, p_list=0.35, p_comments=0.9, p_comment_marker=0.12, straddle_ranges=0.4, p_core=0.7, p_textbox=0.06, p_same_image_name=0.5, p_header=0.7, p_cell_nopar=0.08)
+PROF = profile(p_table=0.3, p_span=0.3, p_vmerge=0.3, p_rpr=0.6, p_style=0.4, p_list=0.35, p_comments=0.9, p_comment_marker=0.12, straddle_ranges=0.4, p_core=0.7, p_textbox=0.06, p_same_image_name=0.5, p_header=0.7, p_cell_nopar=0.08)
 RULE = ('packages from the union of the nesting / table / formatting profiles; all pairs of option settings: html on vs off (same nesting '
         'skeleton, paragraph count, lineage, styles, list positions, images, core properties, number of comments), duplicate_merged_cells on '
         'vs off (records that are not copies carry the same runs in the same order; no merged cell at all => identical output; ragged tables with gridSpan and vMerge in any combination, cells holding paragraphs only: same cells per row and every non-copy record at the same address), image folder '
